@@ -50,7 +50,9 @@ re-run. `seeded/orig_D*` are the reverse patches of the eleven `fix:` commits.
 `seeded/harmless/` holds %d **behaviour-preserving** refactorings written by seven further sub-agents (`E*`/`F*` deliberately
 invasive: extracted helpers, loops turned into iterator chains, `match` turned into `if` chains; `G*` aimed at exactly the
 functions and idioms the later extensions reach: `Display for NodeId` with `{:02x}`, `CombinedKey::enr_to_public` as a
-`match` or with hand-written closures, the socket getters with `?`/`match`/`zip`, `set_socket`, `from_str`) (tests pass,
+`match` or with hand-written closures, the socket getters with `?`/`match`/`zip`, `set_socket`, `from_str`; `H*`, eight
+written by me, cover edit kinds the others did not: reworded error texts, equivalent comparisons and overflow tests, no-op
+statements, attributes) (tests pass,
 rationale in the `.txt` next to each patch). `tools/run_seeded.py <patch>` applies one change (to /repo, or with
 `VP_SEED_SCRATCH=1` to a throw-away copy), runs the 17 registered quick checks and undoes it; `tools/collect_round.py`
 writes the `meta.json` files and the tables below (last round, committed tree); `tools/write_design_116.py` writes this section.
